@@ -55,6 +55,15 @@ pub fn check(path: &str, verbose: bool) -> (usize, Vec<String>) {
             }
         }
         let law = &last.as_ref().unwrap().1;
+        // a reference that declares a large error of its own cannot be validated by this table
+        // (and would make the comparison below vacuous): that is a failure of the gate
+        // (quadrature references must be tight; the deliberate approximations — Berry–Esseen for
+        // Binomial with huge n, the overflow atom of Zeta — declare a bound that is still << 1)
+        let cap = if fam == Fam::Nig { 1e-10 } else { 1e-2 };
+        if !(law.rho_abs_extra <= cap) {
+            bad.push(format!("{key}: reference declares rho_abs_extra={:e} > {cap:e}; golden comparison would be vacuous", law.rho_abs_extra));
+            continue;
+        }
         let c = (law.cdf)(r.x);
         let s = (law.sf)(r.x);
         n += 1;
